@@ -344,7 +344,16 @@ static void handler(char **lines, size_t n, int beh) {
       snprintf(name, sizeof name, "hwvattr%d", counter++);
       errno = 0;
       r1 = hwloc_memattr_register(topo[s], name, fl, &id); err = errno;
-      if (!r1) { r2 = hwloc_memattr_set_value(topo[s], id, tg, NULL, 0, v); err = errno; }
+      if (!r1 && !(fl & HWLOC_MEMATTR_FLAG_NEED_INITIATOR)) { r2 = hwloc_memattr_set_value(topo[s], id, tg, NULL, 0, v); err = errno; }
+      else if (!r1) {
+        /* an attribute with initiators: values from the first three Cores (object initiators, in order) and from the cpuset of the last PU */
+        unsigned k, nc = hwloc_get_nbobjs_by_type(topo[s], HWLOC_OBJ_CORE), np = hwloc_get_nbobjs_by_type(topo[s], HWLOC_OBJ_PU); struct hwloc_location loc;
+        r2 = 0;
+        for (k = 0; k < 3 && k < nc; k++) { loc.type = HWLOC_LOCATION_TYPE_OBJECT; loc.location.object = hwloc_get_obj_by_type(topo[s], HWLOC_OBJ_CORE, k);
+          if (hwloc_memattr_set_value(topo[s], id, tg, &loc, 0, v + k) < 0) { r2 = -1; err = errno; } }
+        if (np) { loc.type = HWLOC_LOCATION_TYPE_CPUSET; loc.location.cpuset = hwloc_get_obj_by_type(topo[s], HWLOC_OBJ_PU, np - 1)->cpuset;
+          if (hwloc_memattr_set_value(topo[s], id, tg, &loc, 0, v + 7) < 0) { r2 = -1; err = errno; } }
+      }
       ev_begin("memattr", s); out(",\"flags\":%lu,\"target\":%lu,\"register\":%d,\"set\":%d", fl, gp, r1, r2); ev_end(!r1 && !r2 ? 0 : -1, err);
     } else if (!strcmp(cmd, "cpukind")) {
       char *cs = hwv_tok(&p); int eff = (int)hwv_tokl(&p); int inf = (int)hwv_tokl(&p); hwloc_bitmap_t c = parse_set(cs);
